@@ -59,6 +59,11 @@ def check(ctx):
     from .c02 import r021
     ctx.aliased({"R01.3": "R12.5"}, r013_grouping, ctx)
     ctx.aliased({"R02.1": "R12.5"}, r021, ctx)
+    # label bijections: a control (or event) label takes part in the merged event name whatever its value - the combiner tests for
+    # null, never for truthiness, so relabelling a stratum as 0 / False / "" only renames index entries (shared with C06 R06.4)
+    ctx.rule("R12.6", "the event / control combiner of the moments keeps every non-null label (shared with C06 R06.4)")
+    from .c06 import r064_null
+    ctx.aliased({"R06.4": "R12.6"}, r064_null, ctx)
 
 
 def label_sinks(ctx, rule, eps):
